@@ -97,8 +97,9 @@ Conv == /\ IsEvent("conv")
 Fmt == /\ IsEvent("fmt")
        /\ LET e == Rec[l]  v == E.variants[e.i]  c == T.canon[e.i]
               bad == {n \in 1..Len(e.specs) : e.outs[n] # FmtStr(c, e.specs[n]) \/ e.std[n] # FmtStr(c, e.specs[n])}
-          IN /\ Require(e.def = E.id /\ Fixed(v) /\ Len(e.outs) = Len(e.specs) /\ Len(e.std) = Len(e.specs), l,
-                        "fmt: malformed event", e.i)
+          \* (a catch-all variant WITH a to_string prints that literal: for Display it is a fixed name like any other)
+          IN /\ Require(e.def = E.id /\ (Fixed(v) \/ (~v.dis /\ ~v.transp /\ v.def /\ IsSome(v.ts)))
+                        /\ Len(e.outs) = Len(e.specs) /\ Len(e.std) = Len(e.specs), l, "fmt: malformed event", e.i)
              /\ IF bad = {} THEN TRUE
                 ELSE LET n == CHOOSE n \in bad : \A m \in bad : n <= m IN
                      Mismatch(l, "fmt", [def |-> E.id, variant |-> e.i, spec |-> e.specs[n], observed |-> e.outs[n],
